@@ -12,5 +12,5 @@ for c in "$@"; do
 done
 git -C /repo checkout -- .
 # the evidence written while the patch was applied describes the patched tree: restore the committed files
-git -C /verif checkout -- evidence/ 2>/dev/null
+git -C /verif checkout -- evidence/ lean/PGT/Generated 2>/dev/null
 git -C /repo status --short | grep -v '^??'
